@@ -13,8 +13,8 @@ RULE = ("expand/combine: every list of <=3 sample counts in 1..M x every maximum
         "distributions: every distribution on <=2 bits with integer weights 0..W x N in 1..9 x EVERY answer of the scripted np.random.choice "
         "within the deviation bound. non-trivial = input actually needs splitting / a remainder / a random correction; distinct = canonical input")
 ASSUMPTIONS = ["np.random.choice is the only randomness used (other entry points are trapped)", "the scripted choice enforces numpy's own argument checks (p >= 0, sum p = 1 within 1e-8)"]
-BOUNDS = {"quick": {"counts": "1..12", "max": "1..13", "weights": "0..3", "N": "1..7", "deviations": 2},
-          "thorough": {"counts": "1..24", "max": "1..25", "weights": "0..5", "N": "1..12 (two-level family on 3 bits: 1..16, <=3 deviations)", "deviations": "all answers on <=2 bits"}}
+BOUNDS = {"quick": {"counts": "1..24", "max": "1..25", "weights": "0..5", "N": "1..12 (two-level family on 3 bits: 7 values, <=2 deviations)", "deviations": "all answers on <=2 bits"},
+          "thorough": {"counts": "1..36", "max": "1..37", "weights": "0..5 on <=2 bits, 0..2 on 3 bits (all 6560 distributions)", "N": "1..16 (two-level family: 1..16, <=3 deviations)", "deviations": "all answers"}}
 
 
 def expand_case(case):
@@ -243,6 +243,11 @@ def distributions(W):
     return out
 
 
+def distributions3(W):
+    keys = ["".join(map(str, b)) for b in itertools.product((0, 1), repeat=3)]
+    return [{k: w for k, w in zip(keys, ws)} for ws in itertools.product(range(W + 1), repeat=8) if sum(ws)]
+
+
 def two_level_family(thorough):
     """distributions on 3 bits with k 'rare' outcomes of weight a followed by m outcomes of weight b (a < b): the shapes for which rounding
     over/undershoots by >= 2 and a rare outcome gets zero rounded shots - where the random top-up / elimination logic has its branches"""
@@ -257,8 +262,9 @@ def two_level_family(thorough):
 
 
 def run(run):
-    thorough = run.tier == "thorough"
-    M = 24 if thorough else 12
+    deep = run.tier == "thorough"      # the former thorough bounds are now the quick tier (10 s); thorough goes one step further
+    thorough = True
+    M = 36 if deep else 24
     secs = [Section("expand_combine", [{"max": m, "first": n0, "M": M} for m in range(1, M + 2) for n0 in range(1, M + 1)], expand_case,
                     desc="expand_sample_sizes + combine_measurement_counts/combine_bitstrings (called twice, shared per-copy dicts) on every count list")]
     secs.append(Section("batches", [{"len": L, "size": b} for L in range(0, 8) for b in range(1, 9)], batch_case, desc="split_into_batches"))
@@ -266,8 +272,8 @@ def run(run):
     secs.append(Section("pipeline", P, pipeline_case, desc="expand -> split_into_batches -> reference runner -> combine"))
     Wt = [list(w) for k in range(1, 5) for w in itertools.product((1, 2, 3, 5, 0.5), repeat=k)]
     secs.append(Section("scale", [{"weights": w} for w in Wt], scale_case, desc="scale_and_discretize on every weight list x totals 0..16"))
-    D = distributions(5 if thorough else 3)
-    Ns = range(1, 13) if thorough else range(1, 8)
+    D = distributions(5) + (distributions3(2) if deep else [])
+    Ns = range(1, 17) if deep else range(1, 13)
     bound = None if thorough else 2
     cases = [{"weights": d, "N": n, "bound": bound, "keys": "str"} for d in D for n in Ns]
     cases += [{"weights": d, "N": n, "bound": bound, "keys": "tuple"} for d in D[::7] for n in Ns]
@@ -278,8 +284,8 @@ def run(run):
               for kk in ("str", "tuple")]
     secs.append(Section("represent_multidigit", qcases, represent_case, horizon=600, desc="distributions over outcomes with multi-digit entries (comma-separated / tuple keys), every scripted RNG answer (bound=%s)" % bound))
     fam = two_level_family(thorough)
-    wb = 3 if thorough else 1
-    cases = [{"weights": d, "N": n, "bound": wb, "keys": "str"} for d in fam for n in (range(1, 17) if thorough else (2, 3, 4, 5, 7, 9))]
+    wb = 3 if deep else 2
+    cases = [{"weights": d, "N": n, "bound": wb, "keys": "str"} for d in fam for n in (range(1, 17) if deep else (2, 3, 4, 5, 7, 9, 12))]
     secs.append(Section("represent_wide", cases, represent_case, horizon=900, chunk=8,
                         desc="two-level distributions on 3 bits (rare outcomes first), every execution with <= %d non-default RNG answers" % wb))
     secs.append(Section("represent_real_rng", [{"weights": d, "N": n} for d in D[::5] for n in Ns], seam_validation_case,
